@@ -25,7 +25,8 @@ EXPLANATION = (
     'state is touched, workers initialised before use, TT geometry changed only before helpers are started, contempt hash written by '
     'thread 0 only); plus a frozen set of static-storage variables written after start-up. Every field of the listed classes must '
     'have a row (new fields fail until classified).'
-    ' The options hand-over (waitOptionsSet returning) is decided by the completion-flag typestate: optionsSetFinished is set only under the mutex with the pending queue and every swapped-out batch known empty.')
+    ' The options hand-over (waitOptionsSet returning) is decided by the completion-flag typestate: optionsSetFinished is set only under the mutex with the pending queue and every swapped-out batch known empty.'
+    ' Added later; (6) unlocked walks of Communicator::children in poll are followed by a lock acquisition; (7) option reads on the go paths follow waitOptionsSet.')
 UNDECIDED = ('absence of races in the C++ memory-model sense for the whole engine (needs dynamic happens-before tracking); rows marked '
              'HB-protocol rely on message-protocol ordering that is listed, not proved; maxSubDTM/maxDTM lazy maps are not judged '
              '(6/7-men tablebase files needed to reach the insertion).')
@@ -178,6 +179,11 @@ def run(fb, rep, tier):
     from . import C10
     C10.completion_flag(fb, rep, 'C09.4')
     c5_children_walk(fb, rep)
+    # .7 option values (plain bool / int members of the parameter objects) are written by the engine thread and read by the
+    # protocol thread when it handles `go`: the only happens-before edge is waitOptionsSet() inside stopThread(), which must
+    # therefore precede every option-reading call on the go paths (shared with C06.4)
+    from . import C06
+    C06.c4_options_before_limits(fb, rep, 'C09.7')
     rep.extra['thread_roles'] = {k: {'roots': [fb.kname(x) for x in roots[k]], 'reachable_functions': len(v)} for k, v in reach.items()}
     n_rows = 0
     for cls, rows in sorted(TABLE.items()):
